@@ -53,6 +53,12 @@ FIXED = [
     [("derive", 0, ("slice", 1, 4, None)), ("derive", 1, ("slice", None, None, 2)), ("derive", 2, ("child", "i")), ("read", 3),
      ("derive", 0, ("cols", ["t", "i"])), ("derive", 4, ("filt", "i", "<", 5)), ("read", 5), ("read", 1)],
     [("fn",), ("array", (0,)), ("grid", (Ellipsis, slice(0, 2))), ("dap4", (0,)), ("derive", 0, ("int", 2)), ("read", 1)],
+    # C14_derived_reads_reference's whole alphabet in one chain: a condition, a column list, a condition on the
+    # column-restricted proxy, a second column list (its order counts), a strided slice, a slice of it, the child,
+    # a condition on the single column
+    [("derive", 0, ("filt", "i", ">", 1)), ("derive", 1, ("cols", ["f", "i"])), ("derive", 2, ("filt", "f", "<", 4)),
+     ("derive", 3, ("cols", ["i", "f"])), ("derive", 4, ("slice", 0, 6, 2)), ("derive", 5, ("slice", 1, 3, None)),
+     ("derive", 6, ("child", "f")), ("derive", 7, ("colfilt", "i", "<=", 5)), ("read", 8)],
 ]
 
 
